@@ -15,6 +15,9 @@ import Sck.Model.Hall
 import Sck.Model.Irving
 import Sck.Model.C12Spec
 import Sck.Driver.FlowOps
+import Sck.Driver.DfsOps
+import Sck.Driver.BvnOps
+import Sck.Driver.IrvingOps
 import Sck.Model.Profile
 import Sck.Model.Preflib
 
@@ -448,7 +451,7 @@ def dispatch : String → Option (P String)
   | "generate" => some opGenerate
   | "preflib" => some opPreflib
   | "prefrow" => some opPrefRow
-  | op => dispatchFlow op
+  | op => ((dispatchDfs op).orElse (fun _ => dispatchBvn op)).orElse (fun _ => dispatchIrving op)
 
 def handle (line : String) : String :=
   let toks := (line.splitOn " ").map (fun s => s.trimAscii.toString) |>.filter (· ≠ "")
